@@ -151,11 +151,65 @@ def ob_memo(w, P):
     return cl
 
 
+def ob_memo_names(w, P):
+    """name=None: the key base is derived from the function; two different functions with the same __name__ (methods of
+    two classes, local helpers of two outer functions) memoized on one cache must not share entries"""
+    L = w.L
+    cl = []
+    mc = MemoCache(w, L)
+    calls = []
+
+    class Circle:
+        @staticmethod
+        def area(r):
+            calls.append('circle')
+            return ('circle', r)
+
+    class Square:
+        @staticmethod
+        def area(r):
+            calls.append('square')
+            return ('square', r)
+
+    def outer1():
+        def helper(x):
+            calls.append('h1')
+            return ('h1', x)
+        return helper
+
+    def outer2():
+        def helper(x):
+            calls.append('h2')
+            return ('h2', x)
+        return helper
+    variant = P['variant']
+    if variant == 'cache':
+        deco = lambda f: L.core.Cache.memoize(mc)(f)
+    elif variant == 'django':
+        mc = DjangoLike(w, L)
+        deco = lambda f: L.djangocache.DjangoCache.memoize(mc)(f)
+    else:
+        deco = lambda f: L.recipes.memoize_stampede(mc, 100)(f)
+        L.recipes.random = type('X', (), {'random': staticmethod(lambda: 0.5)})
+    w.clock_fn = lambda: 1000.0
+    x = int(w.int('x', 0, 2))
+    pairs = [(deco(Circle.area), deco(Square.area), 'circle', 'square'), (deco(outer1()), deco(outer2()), 'h1', 'h2')]
+    for f1, f2, n1, n2 in pairs:
+        r1 = f1(x)
+        r2 = f2(x)
+        cl.append(('C16', 'different functions with the same short name do not share entries', r1 == (n1, x) and r2 == (n2, x)))
+        cl.append(('C16', 'their derived key bases differ', f1.__cache_key__(x) != f2.__cache_key__(x)))
+    flag('nontrivial')
+    return cl
+
+
 def jobs(tier):
     out = []
     F = {'cache': ['core.Cache.memoize', 'core.args_to_key'], 'fanout': ['core.Cache.memoize'], 'index': ['persistent.Index.memoize', 'core.Cache.memoize'],
          'django': ['djangocache.DjangoCache.memoize'], 'stampede': ['recipes.memoize_stampede']}
     for v in ('cache', 'fanout', 'index', 'django', 'stampede'):
         out.append(dict(id='memo.%s' % v, func='ob_memo', params=dict(variant=v), tags=['C16'], functions=F[v], weight=5, twin=False))
+    for v in ('cache', 'django', 'stampede'):
+        out.append(dict(id='memo.names.%s' % v, func='ob_memo_names', params=dict(variant=v), tags=['C16'], functions=['core.full_name'] + F[v], weight=3, twin=False))
     out.append(dict(id='memo.stampede.nothread', func='ob_memo', params=dict(variant='stampede', run_thread=False), tags=['C16'], functions=F['stampede'], weight=5, twin=False))
     return out
